@@ -23,6 +23,18 @@ import json, os, subprocess, sys
 VERIF = os.path.dirname(os.path.dirname(os.path.abspath(__file__)))
 REPO = os.environ.get("VERIF_REPO", "/repo")
 SRC = "spqlios/coeffs/coeffs_arithmetic.c"
+# every file a target function (or a function it calls) may be defined in
+SRCS = [SRC, "spqlios/arithmetic/vec_znx.c", "spqlios/coeffs/coeffs_arithmetic_avx.c", "spqlios/arithmetic/vec_znx_avx.c"]
+# per-file ISA flags (as in spqlios/CMakeLists.txt): the intrinsics need their target features to parse
+EXTRA_CFLAGS = {"spqlios/coeffs/coeffs_arithmetic_avx.c": ["-mavx2", "-mfma"],
+                "spqlios/arithmetic/vec_znx_avx.c": ["-mavx2", "-mfma"]}
+# vector types: number of 64-bit cells
+VEC_CELLS = {"__m256i": 4, "__m256i_u": 4, "__m128i": 2, "__m128i_u": 2}
+# intrinsics modelled as IR primitives on lanes of 64-bit cells
+VEC_BIN = {"_mm256_add_epi64": ("vadd", 4), "_mm256_sub_epi64": ("vsub", 4), "_mm_add_epi64": ("vadd", 2), "_mm_sub_epi64": ("vsub", 2)}
+VEC_LOAD = {"_mm256_loadu_si256": 4, "_mm_loadu_si128": 2}
+VEC_STORE = {"_mm256_storeu_si256": 4, "_mm_storeu_si128": 2}
+VEC_SET1 = {"_mm256_set1_epi64x": 4, "_mm_set1_epi64x": 2}
 CLANG = os.environ.get("VERIF_CLANG", "clang-14")
 CFLAGS = ["-std=gnu11", "-DSPQLIOS_VERIF", "-DNDEBUG"]
 
@@ -33,12 +45,21 @@ TARGETS = [
     "rnx_rotate_f64", "rnx_mul_xp_minus_one", "rnx_automorphism_f64",
     "znx_rotate_inplace_i64", "rnx_rotate_inplace_f64", "rnx_mul_xp_minus_one_inplace",
     "znx_automorphism_inplace_i64", "rnx_automorphism_inplace_f64", "znx_normalize",
+    # limb-vector wrappers of spqlios/arithmetic/vec_znx.c (they call the kernels above)
+    "vec_znx_zero_ref", "vec_znx_copy_ref", "vec_znx_negate_ref", "vec_znx_add_ref", "vec_znx_sub_ref",
+    "vec_znx_rotate_ref", "vec_znx_automorphism_ref", "vec_znx_normalize_base2k_ref",
+    "vec_znx_normalize_base2k_tmp_bytes_ref",
+    # integer AVX2 twins of spqlios/coeffs/coeffs_arithmetic_avx.c
+    "znx_add_i64_avx", "znx_sub_i64_avx", "znx_negate_i64_avx",
+    # limb-vector wrappers of spqlios/arithmetic/vec_znx_avx.c (they call the AVX kernels; copy / zero are the ref kernels)
+    "vec_znx_add_avx", "vec_znx_sub_avx", "vec_znx_negate_avx",
 ]
 
+RET_TYMAP = {"uint64_t": "u64", "int64_t": "i64", "unsigned long": "u64", "long": "i64"}
 TYMAP = {"unsigned long": "u64", "long": "i64", "int": "i32", "unsigned int": "u32", "double": "f64",
          "unsigned long long": "u64", "long long": "i64"}
 RANGE = {"u64": (0, 2**64 - 1), "i64": (-2**63, 2**63 - 1), "u32": (0, 2**32 - 1), "i32": (-2**31, 2**31 - 1)}
-SIZEOF = {"u64": 8, "i64": 8, "u32": 4, "i32": 4, "f64": 8}
+SIZEOF = {"u64": 8, "i64": 8, "u32": 4, "i32": 4, "f64": 8, "u8": 1, "v4": 32, "v2": 16}
 ARITH = {"+": "add", "-": "sub", "*": "mul", "&": "band", "|": "bor", "^": "bxor", "<<": "shl", ">>": "shr"}
 CMP = {"<": "lt", "<=": "le", ">": "gt", ">=": "ge", "==": "eq", "!=": "ne"}
 
@@ -91,11 +112,23 @@ def scalar_ty(n, what="expression"):
     return TYMAP[q]
 
 
-def ptr_elem_ty(q):
+def strip_ptr_const(q):
+    """`T *const` -> `T *` (a const pointer variable is still a pointer)"""
     q = q.strip()
+    while q.endswith("const") and "*" in q and q[:-5].rstrip().endswith("*"):
+        q = q[:-5].rstrip()
+    return q
+
+
+def ptr_elem_ty(q):
+    q = strip_ptr_const(q)
     if not q.endswith("*"):
         return None
     e = strip_cv(q[:-1].strip())
+    if e in ("uint8_t", "unsigned char"):
+        return "u8"
+    if e in VEC_CELLS:
+        return "v%d" % VEC_CELLS[e]
     e = {"int64_t": "long", "uint64_t": "unsigned long", "int32_t": "int", "uint32_t": "unsigned int"}.get(e, e)
     if e not in TYMAP:
         raise Unsupported(f"pointer to '{e}'")
@@ -113,6 +146,13 @@ class FnTranslator:
         self.ptr_names = []
         self.ptr_ty = []
         self.scalars = []
+        self.ret_slot = None     # slot of the result of a value-returning function
+        self.ret_ty = None
+        self.byte_ptrs = set()   # decl ids of `uint8_t*` parameters (usable only through a cast to `int64_t*`)
+        self.pslots = {}     # decl id of a pointer local -> first of its two slots
+        self.params = []     # kinds of the parameters in C order: ("s", ty) | ("p", ty) | ("m",)
+        self.module_ids = set()   # decl ids of `const MODULE*` parameters (slot holds module->nn)
+        self.calls = []      # names of the translated functions this one calls
         self.inline = []     # stack of {param decl id -> translated argument} for inlined expression functions
         self.inline_depth = 0
 
@@ -136,9 +176,9 @@ class FnTranslator:
             return self.ptr_ref(n["inner"][0])
         if k == "DeclRefExpr":
             rid = n["referencedDecl"]["id"]
-            if rid in self.ptrs:
+            if rid in self.ptrs and rid not in self.byte_ptrs:
                 return self.ptrs[rid]
-        self.err(n, "pointer expression that is not a pointer parameter")
+        self.err(n, "pointer expression that is not a (64-bit element) pointer parameter")
 
     def is_null_const(self, n):
         if n.get("kind") == "ImplicitCastExpr" and n.get("castKind") == "NullToPointer":
@@ -149,7 +189,7 @@ class FnTranslator:
         return False
 
     def is_ptr(self, n):
-        return qual(n).strip().endswith("*")
+        return strip_ptr_const(qual(n)).endswith("*")
 
     def expr(self, n):
         k = n.get("kind")
@@ -196,16 +236,20 @@ class FnTranslator:
         if k == "BinaryOperator":
             op = n["opcode"]
             a, b = n["inner"]
+            if op == "<" and self.is_ptr(a) and self.is_ptr(b):
+                pa, pb = self.pexpr(a), self.pexpr(b)
+                return f"(.ptrLt {pa[0]} {pa[1]} {pb[0]} {pb[1]})"
             if op in CMP and (self.is_ptr(a) or self.is_ptr(b)):
                 if op not in ("==", "!="):
-                    self.err(n, "pointer ordering comparison")
-                if self.is_null_const(b):
-                    p = self.ptr_ref(a)
-                elif self.is_null_const(a):
-                    p = self.ptr_ref(b)
+                    self.err(n, "pointer ordering comparison other than <")
+                pa, pb = self.pexpr(a), self.pexpr(b)
+                if pb == (".null", "(.lit 0)") and pa[0].startswith("(.param ") and pa[1] == "(.lit 0)":
+                    e = f"(.isNull {pa[0][len('(.param '):-1]})"
+                elif pa == (".null", "(.lit 0)") and pb[0].startswith("(.param ") and pb[1] == "(.lit 0)":
+                    e = f"(.isNull {pb[0][len('(.param '):-1]})"
                 else:
-                    self.err(n, "pointer comparison with something else than 0")
-                return f"(.isNull {p})" if op == "==" else f"(.un .lnot .i32 (.isNull {p}))"
+                    e = f"(.ptrEq {pa[0]} {pa[1]} {pb[0]} {pb[1]})"
+                return e if op == "==" else f"(.un .lnot .i32 {e})"
             if op in ARITH:
                 t = scalar_ty(n, "result")
                 ta, tb = scalar_ty(a, "operand"), scalar_ty(b, "operand")
@@ -233,6 +277,8 @@ class FnTranslator:
             self.err(n, f"binary operator '{op}' in expression position")
         if k == "CallExpr":
             return self.inline_call(n)
+        if k == "MemberExpr":
+            self.err(n, "member access outside an rvalue read")
         if k == "ConditionalOperator":
             c, a, b = n["inner"]
             if scalar_ty(a, "operand") != scalar_ty(b, "operand"):
@@ -284,15 +330,102 @@ class FnTranslator:
             self.inline.pop()
             self.inline_depth -= 1
 
+    def pexpr(self, n, cast8=False):
+        """a pointer-valued expression: returns (base, offset expression in cells)"""
+        k = n.get("kind")
+        if k == "ParenExpr":
+            return self.pexpr(n["inner"][0], cast8)
+        if self.is_null_const(n):
+            return (".null", "(.lit 0)")
+        if k in ("ImplicitCastExpr", "CStyleCastExpr"):
+            ck = n.get("castKind")
+            c = n["inner"][0]
+            if ck == "NoOp":
+                return self.pexpr(c, cast8)
+            if ck == "BitCast":
+                # `(int64_t*)tmp_space` with `uint8_t* tmp_space`: the byte pointer is used as a cell pointer
+                to = ptr_elem_ty(qual(n))
+                if SIZEOF[to] % 8 != 0:
+                    self.err(n, "pointer cast to an element type that is not a whole number of 64-bit cells")
+                return self.pexpr(c, True)
+            if ck == "LValueToRValue":
+                while c.get("kind") == "ParenExpr":
+                    c = c["inner"][0]
+                if c.get("kind") == "DeclRefExpr":
+                    rid = c["referencedDecl"]["id"]
+                    if rid in self.ptrs:
+                        if rid in self.byte_ptrs and not cast8:
+                            self.err(c, "byte pointer used without a cast to a 64-bit element pointer")
+                        return (f"(.param {self.ptrs[rid]})", "(.lit 0)")
+                    if rid in self.pslots:
+                        return (f"(.pvar {self.pslots[rid]})", "(.lit 0)")
+                self.err(c, "pointer value that is not a pointer parameter or pointer local")
+            self.err(n, f"pointer cast kind {ck}")
+        if k == "BinaryOperator" and n["opcode"] == "+":
+            a, b = n["inner"]
+            if self.is_ptr(b) and not self.is_ptr(a):
+                a, b = b, a
+            if not self.is_ptr(a) or self.is_ptr(b):
+                self.err(n, "pointer addition form")
+            base, off = self.pexpr(a)
+            if off != "(.lit 0)":
+                self.err(n, "nested pointer arithmetic")
+            if SIZEOF[ptr_elem_ty(qual(a))] != 8:
+                self.err(n, "arithmetic on a pointer whose element is not 8 bytes wide (only ++/-- is supported there)")
+            if scalar_ty(b, "pointer offset") == "f64":
+                self.err(n, "non-integer pointer offset")
+            return (base, self.expr(b))
+        self.err(n, "pointer expression")
+
+    def callee_name(self, n):
+        callee = n["inner"][0]
+        while callee.get("kind") in ("ImplicitCastExpr", "ParenExpr"):
+            callee = callee["inner"][0]
+        return callee.get("referencedDecl", {}).get("name")
+
+    def vexpr(self, n):
+        """a vector-valued expression (`__m256i` / `__m128i`): returns (IR string, lanes)"""
+        k = n.get("kind")
+        if k == "ParenExpr":
+            return self.vexpr(n["inner"][0])
+        if k == "ImplicitCastExpr" and n.get("castKind") == "NoOp":
+            return self.vexpr(n["inner"][0])
+        if k == "CallExpr":
+            fname = self.callee_name(n)
+            args = n["inner"][1:]
+            if fname in VEC_LOAD and len(args) == 1:
+                b, o = self.pexpr(args[0])
+                return (f"(.vload {VEC_LOAD[fname]} {b} {o})", VEC_LOAD[fname])
+            if fname in VEC_BIN and len(args) == 2:
+                op, lanes = VEC_BIN[fname]
+                (x, lx), (y, ly) = self.vexpr(args[0]), self.vexpr(args[1])
+                if lx != lanes or ly != lanes:
+                    self.err(n, f"'{fname}' on vectors of the wrong width")
+                return (f"(.{op} {x} {y})", lanes)
+            if fname in VEC_SET1 and len(args) == 1:
+                if scalar_ty(args[0], "broadcast value") != "i64":
+                    self.err(n, f"'{fname}' argument type")
+                return (f"(.vset1 {VEC_SET1[fname]} {self.expr(args[0])})", VEC_SET1[fname])
+            self.err(n, f"vector intrinsic '{fname}'")
+        self.err(n, "vector expression")
+
     def lvalue_read(self, c):
         while c.get("kind") == "ParenExpr":
             c = c["inner"][0]
         k = c.get("kind")
+        if k == "MemberExpr":
+            base = c["inner"][0]
+            while base.get("kind") in ("ParenExpr", "ImplicitCastExpr"):
+                base = base["inner"][0]
+            if (c.get("name") == "nn" and c.get("isArrow") and base.get("kind") == "DeclRefExpr"
+                    and base["referencedDecl"]["id"] in self.module_ids):
+                return f"(.var {self.slots[base['referencedDecl']['id']]})"
+            self.err(c, "member access other than `module->nn`")
         if k == "DeclRefExpr":
             rid = c["referencedDecl"]["id"]
             if self.inline and rid in self.inline[-1]:
                 return self.inline[-1][rid]
-            if rid in self.slots:
+            if rid in self.slots and rid not in self.module_ids:
                 return f"(.var {self.slots[rid]})"
             self.err(c, f"read of '{c['referencedDecl'].get('name')}' which is not a scalar parameter/local")
         if k == "ArraySubscriptExpr":
@@ -344,6 +477,14 @@ class FnTranslator:
         k = n.get("kind")
         if k == "ParenExpr":
             return self.effect(n["inner"][0])
+        if k == "BinaryOperator" and n["opcode"] == "=" and self.is_ptr(n["inner"][0]):
+            lhs, rhs = n["inner"]
+            while lhs.get("kind") == "ParenExpr":
+                lhs = lhs["inner"][0]
+            if lhs.get("kind") != "DeclRefExpr" or lhs["referencedDecl"]["id"] not in self.pslots:
+                self.err(n, "assignment to a pointer that is not a pointer local")
+            b, o = self.pexpr(rhs)
+            return ("passign", self.pslots[lhs["referencedDecl"]["id"]], b, o)
         if k == "BinaryOperator" and n["opcode"] == "=":
             lhs, rhs = n["inner"]
             if scalar_ty(lhs, "assignment") != scalar_ty(rhs, "assignment"):
@@ -378,6 +519,17 @@ class FnTranslator:
                 e = f"(.bin .{ARITH[op]} .{tc} {a} {r})"
                 return e if tc == tl else f"(.cast .{tl} {e})"
             return self.assign_to(lhs, rhs_of)
+        if k == "UnaryOperator" and n["opcode"] in ("++", "--") and self.is_ptr(n["inner"][0]):
+            c = n["inner"][0]
+            while c.get("kind") == "ParenExpr":
+                c = c["inner"][0]
+            if c.get("kind") != "DeclRefExpr" or c["referencedDecl"]["id"] not in self.pslots:
+                self.err(n, "++/-- on a pointer that is not a pointer local")
+            cells = SIZEOF[ptr_elem_ty(qual(c))] // 8
+            s0 = self.pslots[c["referencedDecl"]["id"]]
+            if n["opcode"] == "--":
+                self.err(n, "-- on a pointer")
+            return ("passign", s0, f"(.pvar {s0})", f"(.lit {cells})")
         if k == "UnaryOperator" and n["opcode"] in ("++", "--"):
             c = n["inner"][0]
             t = scalar_ty(c, "operand")
@@ -401,6 +553,36 @@ class FnTranslator:
                 if scalar_ty(args[2], "byte count") != "u64" or scalar_ty(args[1], "value") != "i32":
                     self.err(n, "memset argument types")
                 return ("memset", d, self.ptr_ty[d], self.expr(args[1]), self.expr(args[2]))
+            if fname in VEC_STORE and len(args) == 2:
+                b, o = self.pexpr(args[0])
+                v, lanes = self.vexpr(args[1])
+                if lanes != VEC_STORE[fname]:
+                    self.err(n, f"'{fname}' of a vector of the wrong width")
+                return ("vstore", lanes, b, o, v)
+            if fname in REGISTRY:
+                callee = REGISTRY[fname]
+                if callee is None:
+                    self.err(n, f"call of '{fname}', which could not be translated")
+                if len(args) != len(callee.params):
+                    self.err(n, f"call of '{fname}': arity")
+                sargs, pargs = [], []
+                for kind, arg in zip(callee.params, args):
+                    if kind[0] == "m":
+                        a = arg
+                        while a.get("kind") in ("ParenExpr", "ImplicitCastExpr"):
+                            a = a["inner"][0]
+                        if a.get("kind") != "DeclRefExpr" or a["referencedDecl"]["id"] not in self.module_ids:
+                            self.err(n, f"call of '{fname}': module argument is not this function's module parameter")
+                        sargs.append(f"(.var {self.slots[a['referencedDecl']['id']]})")
+                    elif kind[0] == "s":
+                        if scalar_ty(arg, "argument") != kind[1]:
+                            self.err(n, f"call of '{fname}': scalar argument type")
+                        sargs.append(self.expr(arg))
+                    else:
+                        b, o = self.pexpr(arg)
+                        pargs.append(f"({b}, {o})")
+                self.calls.append(fname)
+                return ("call", fname, sargs, pargs)
             self.err(n, f"call of '{fname}'")
         if k == "CStyleCastExpr" and n.get("castKind") == "ToVoid":
             c = n["inner"][0]
@@ -429,7 +611,19 @@ class FnTranslator:
                 if "init" not in d or not d.get("inner"):
                     self.err(d, f"declaration of '{d.get('name')}' without initialiser")
                 if self.is_ptr(d):
-                    self.err(d, "local pointer variable")
+                    exprs = [c for c in d["inner"] if not c.get("kind", "").endswith("Comment")]
+                    if "init" not in d or len(exprs) != 1:
+                        self.err(d, f"pointer declaration of '{d.get('name')}' without initialiser")
+                    if SIZEOF[ptr_elem_ty(qual(d))] % 8 != 0:
+                        self.err(d, "pointer local to an element that is not a whole number of 64-bit cells")
+                    b, o = self.pexpr(exprs[0])
+                    s0 = len(self.slot_names)
+                    self.pslots[d["id"]] = s0
+                    self.slot_names += [d.get("name", "?") + ".buf", d.get("name", "?") + ".off"]
+                    self.slot_ty[s0] = "ptr"
+                    self.slot_ty[s0 + 1] = "ptr"
+                    out.append(("passign", s0, b, o))
+                    continue
                 exprs = [c for c in d["inner"] if not c.get("kind", "").endswith("Comment")]
                 if len(exprs) != 1:
                     self.err(d, "declaration with unexpected children")
@@ -466,7 +660,12 @@ class FnTranslator:
             return ("doWhile", b, self.expr(n["inner"][1]))
         if k == "ReturnStmt":
             if n.get("inner"):
-                self.err(n, "return with a value")
+                # value-returning function: the value goes to the dedicated result slot (`Fn.ret`)
+                if self.ret_slot is None or len(n["inner"]) != 1:
+                    self.err(n, "return with a value")
+                return ("seq", ("assign", self.ret_slot, f"(.cast .{self.ret_ty} {self.expr(n['inner'][0])})"), ("ret",))
+            if self.ret_slot is not None:
+                self.err(n, "return without a value in a value-returning function")
             return ("ret",)
         if k == "ContinueStmt":
             return ("cont",)
@@ -481,18 +680,34 @@ class FnTranslator:
             k = c.get("kind")
             if k == "ParmVarDecl":
                 q = qual(c)
-                if q.strip().endswith("*"):
+                if strip_cv(q).replace(" ", "") in ("MODULE*", "structmodule_info_t*"):
+                    # `const MODULE* module`: only `module->nn` is read; the parameter is the scalar nn
+                    if self.slot_names and len(self.slot_names) != len(self.scalars):
+                        self.err(c, "internal: parameter after local")
+                    s = len(self.slot_names)
+                    self.slots[c["id"]] = s
+                    self.slot_names.append(c.get("name", "?") + "->nn")
+                    self.slot_ty[s] = "u64"
+                    self.scalars.append("u64")
+                    self.module_ids.add(c["id"])
+                    self.params.append(("m",))
+                elif q.strip().endswith("*"):
                     et = ptr_elem_ty(q)
+                    if et == "u8":
+                        self.byte_ptrs.add(c["id"])
+                        et = "i64"     # scratch bytes, used only as int64 cells (checked at every use)
                     if SIZEOF[et] != 8:
                         self.err(c, "pointer to an element that is not 8 bytes wide")
                     self.ptrs[c["id"]] = len(self.ptr_names)
                     self.ptr_names.append(c.get("name", "?"))
                     self.ptr_ty.append(et)
+                    self.params.append(("p", et))
                 else:
                     if self.slot_names and len(self.slot_names) != len(self.scalars):
                         self.err(c, "internal: parameter after local")
                     self.new_slot(c)
                     self.scalars.append(scalar_ty(c, "parameter"))
+                    self.params.append(("s", scalar_ty(c, "parameter")))
             elif k == "CompoundStmt":
                 body = c
             elif k in ("FullComment", "AlwaysInlineAttr", "VisibilityAttr"):
@@ -503,7 +718,13 @@ class FnTranslator:
             raise Unsupported(f"{self.name}: no body")
         rt = self.decl["type"]["qualType"].split("(")[0].strip()
         if rt != "void":
-            raise Unsupported(f"{self.name}: return type '{rt}'")
+            if rt not in RET_TYMAP:
+                raise Unsupported(f"{self.name}: return type '{rt}'")
+            # scalar result: one more slot right after the scalar parameters
+            self.ret_ty = RET_TYMAP[rt]
+            self.ret_slot = len(self.slot_names)
+            self.slot_names.append("<result>")
+            self.slot_ty[self.ret_slot] = self.ret_ty
         return self.stmt(body) or ("skip",)
 
 
@@ -520,6 +741,12 @@ def render(s, ind):
         return f"{pad}.memcpy {s[1]} {s[2]} {s[3]}"
     if k == "memset":
         return f"{pad}.memset {s[1]} .{s[2]} {s[3]} {s[4]}"
+    if k == "vstore":
+        return f"{pad}.vstore {s[1]} {s[2]} {s[3]} {s[4]}"
+    if k == "passign":
+        return f"{pad}.passign {s[1]} {s[2]} {s[3]}"
+    if k == "call":
+        return (f"{pad}.call {s[1]}.body {s[1]}.nslots [{', '.join(s[2])}]\n{pad}  [{', '.join(s[3])}]")
     if k == "seq":
         return f"{pad}.seq\n" + paren(s[1], ind + 2) + "\n" + paren(s[2], ind + 2)
     if k == "ite":
@@ -541,31 +768,47 @@ def paren(s, ind):
     return pad + "(" + r[len(pad):] + ")"
 
 
+_AST_CACHE = {}
+
+
 def load_ast(fn):
-    cmd = [CLANG] + CFLAGS + ["-I" + REPO, "-fsyntax-only", "-Xclang", "-ast-dump=json", "-Xclang", f"-ast-dump-filter={fn}",
-                             os.path.join(REPO, SRC)]
-    r = subprocess.run(cmd, capture_output=True, text=True)
-    if r.returncode != 0:
-        raise Unsupported(f"clang failed on {SRC}: {r.stderr[-1500:]}")
-    dec = json.JSONDecoder()
-    s, i, docs = r.stdout, 0, []
-    while True:
-        while i < len(s) and s[i].isspace():
-            i += 1
-        if i >= len(s):
-            break
-        d, i = dec.raw_decode(s, i)
-        docs.append(d)
-    defs = [d for d in docs if d.get("kind") == "FunctionDecl" and d.get("name") == fn
-            and any(c.get("kind") == "CompoundStmt" for c in d.get("inner", []))]
-    if len(defs) != 1:
-        raise Unsupported(f"{fn}: {len(defs)} definitions found in {SRC}")
-    annotate_lines(defs[0])
-    return defs[0]
+    if fn in _AST_CACHE:
+        return _AST_CACHE[fn]
+    found = []
+    for src in SRCS:
+        path = os.path.join(REPO, src)
+        if not os.path.exists(path):
+            continue
+        cmd = [CLANG] + CFLAGS + EXTRA_CFLAGS.get(src, []) + ["-I" + REPO, "-fsyntax-only", "-Xclang", "-ast-dump=json", "-Xclang",
+                                 f"-ast-dump-filter={fn}", path]
+        r = subprocess.run(cmd, capture_output=True, text=True)
+        if r.returncode != 0:
+            raise Unsupported(f"clang failed on {src}: {r.stderr[-1500:]}")
+        dec = json.JSONDecoder()
+        s, i, docs = r.stdout, 0, []
+        while True:
+            while i < len(s) and s[i].isspace():
+                i += 1
+            if i >= len(s):
+                break
+            d, i = dec.raw_decode(s, i)
+            docs.append(d)
+        found += [(src, d) for d in docs if d.get("kind") == "FunctionDecl" and d.get("name") == fn
+                  and any(c.get("kind") == "CompoundStmt" for c in d.get("inner", []))]
+    if len(found) != 1:
+        raise Unsupported(f"{fn}: {len(found)} definitions found in {', '.join(SRCS)}")
+    annotate_lines(found[0][1])
+    found[0][1]["_src"] = found[0][0]
+    _AST_CACHE[fn] = found[0][1]
+    return found[0][1]
+
+
+REGISTRY = {}   # name -> FnTranslator of an already translated function (None: translation failed)
 
 
 def translate_all(targets):
-    out = ["/- GENERATED by tools/c2lean.py from " + SRC + " (clang JSON AST) -- do not edit, never committed.",
+    REGISTRY.clear()
+    out = ["/- GENERATED by tools/c2lean.py from " + ", ".join(SRCS) + " (clang JSON AST) -- do not edit, never committed.",
            "   One `Spq.CIR.Fn` per C function; slots = scalar parameters, then locals in order of declaration. -/",
            "import Spq.CIR", "namespace Gen.CSrc", "open Spq.CIR", ""]
     names = []
@@ -578,18 +821,21 @@ def translate_all(targets):
             # keep the file (and the driver that imports it) buildable: a stub term with an empty body.  Every theorem
             # about this function fails on the stub, which is how the broken tie is reported for the property it belongs to
             unsupported[fn] = str(e)
+            REGISTRY[fn] = None
             out.append(f"/-- `{fn}` : NOT TRANSLATED ({str(e)[:300].replace('-/', '- /')}) -/")
             out.append(f"def {fn} : Fn := {{ name := \"{fn}\", scalars := [], ptrs := [], nslots := 0, body := .skip }}")
             out.append("")
             names.append(fn)
             continue
+        REGISTRY[fn] = t
         sig = t.decl["type"]["qualType"]
-        out.append(f"/-- `{fn}` : `{sig}`")
+        out.append(f"/-- `{fn}` ({t.decl.get('_src')}) : `{sig}`")
         out.append("    slots: " + ", ".join(f"{i} {nm}:{t.slot_ty[i]}" for i, nm in enumerate(t.slot_names)))
         out.append("    pointers: " + ", ".join(f"{i} {nm}:{ty}" for i, (nm, ty) in enumerate(zip(t.ptr_names, t.ptr_ty))) + " -/")
         out.append(f"def {fn} : Fn :=")
         out.append(f"  {{ name := \"{fn}\", scalars := [{', '.join('.' + x for x in t.scalars)}], "
-                   f"ptrs := [{', '.join('.' + x for x in t.ptr_ty)}], nslots := {len(t.slot_names)},")
+                   f"ptrs := [{', '.join('.' + x for x in t.ptr_ty)}], nslots := {len(t.slot_names)},"
+                   + (f" ret := some {t.ret_slot}," if t.ret_slot is not None else ""))
         out.append("    body :=")
         out.append(render(body, 6) + " }")
         out.append("")
